@@ -53,6 +53,14 @@ MANIFEST = {
 }
 
 STRAT = {"pkg": "c04strat", "sub": "strat", "go": "go1.26.8", "kinds": ["C04:strategy:"]}
+# real-time, truly parallel stress family (monitors only): supervisors deciding on OTHER goroutines than the failing workers
+ESC = {"pkg": "c04esc", "sub": "esc", "coq": False, "kinds": ["C04:esc:"]}
+TRUSTED_ESC = [
+    "sub-harness 'esc' (harness/cmd/c04esc): search oracle only, no model — real ActorSystem in real time with GOMAXPROCS >= 4 (also 4x "
+    "oversubscribed), 2-8 supervisors (ants pool or calling-thread dispatcher) x 4-24 workers under a Resume-always strategy, every k-th serial "
+    "fails (panic / ReportAbnormal) with later serials queued behind; 1.5 s without progress counts as quiescent; the interleavings are those the Go "
+    "runtime happens to produce",
+]
 
 _orig_go_build = vlib.go_build
 
@@ -67,9 +75,9 @@ def _go_build(ctx, pkg, **kw):
 def check(ctx):
     vlib.go_build = _go_build
     return K.check(ctx, "C04", ["C04:", "kernel:"], "DESIGN.md §6 C04; docs/C04-STRATEGY-NOTES.md",
-                   extra_subs=[STRAT], extra_trusted=TRUSTED_STRAT)
+                   extra_subs=[STRAT, ESC], extra_trusted=TRUSTED_STRAT + TRUSTED_ESC)
 
 
 def replay(ctx, path):
     vlib.go_build = _go_build
-    return K.replay(ctx, path, extra_pkgs={"strat": "c04strat"})
+    return K.replay(ctx, path, extra_pkgs={"strat": "c04strat", "esc": "c04esc"})
